@@ -194,6 +194,13 @@ def validate_templates(seed, n):
         X = derive_point_from_scalar(clamp_scalar(hashlib.sha256(pk + sc.commitment()).digest()))
         root = aggregate_points((pk, X))
         chk('taproot_lock', tools.make_taproot_lock(pk, sc, sigflags=a.hex()), render(t_taproot_lock(root, a)))
+        # graftap = taproot lock committing to the graftroot-style script of the same key, same flags
+        gs = tools._make_graftap_committed_script(pk)
+        Xg = derive_point_from_scalar(clamp_scalar(hashlib.sha256(pk + gs.commitment()).digest()))
+        chk('graftap_lock', tools.make_graftap_lock(pk, a.hex()), render(t_taproot_lock(aggregate_points((pk, Xg)), a)))
+        chk('graftap_committed_script', gs,
+            render([T.op('OP_DUP'), T.op('OP_SWAP'), b'\x01\x02', ('push', pk), T.op('OP_CHECK_SIG_STACK'),
+                    T.op('OP_VERIFY'), T.op('OP_EVAL')]))
         chk('taproot_witness_scriptspend', tools.make_taproot_witness_scriptspend(pk, sc),
             render([('push', sc.bytes), ('push', pk)]))
         sc2 = tools.Script.from_src('false')
@@ -500,25 +507,145 @@ def lemma_ptlc(e):
         return
 
 
+# ------------------------------------------------------------------------------------------ C14
+_HOLES = {}
+
+
+def builder_template(name, build, hole_lens):
+    """template of a builder whose script text is fixed apart from fixed-size data holes, extracted
+    MECHANICALLY: build it natively with two sets of marker values and take the positions where the
+    bytes differ.  Returns (bytes, [(offset, length)]) -- the caller splices data into the holes; the
+    splice is validated against the real builder on random data on every run."""
+    if name in _HOLES:
+        return _HOLES[name]
+    m1 = [bytes([0x11 + k]) * n for k, n in enumerate(hole_lens)]
+    m2 = [bytes([0xa1 + k]) * n for k, n in enumerate(hole_lens)]
+    b1, b2 = build(*m1), build(*m2)
+    assert len(b1) == len(b2), 'builder output length depends on the data'
+    holes = []
+    for k, n in enumerate(hole_lens):
+        off = b1.find(m1[k])
+        assert off >= 0 and b2[off:off + n] == m2[k] and b1.count(m1[k]) == 1, f'hole {k} not found exactly once'
+        holes.append((off, n))
+    rest1 = bytearray(b1)
+    rest2 = bytearray(b2)
+    for off, n in holes:
+        rest1[off:off + n] = b'\0' * n
+        rest2[off:off + n] = b'\0' * n
+    assert rest1 == rest2, 'builder output differs outside the data holes'
+    _HOLES[name] = (b1, holes)
+    return _HOLES[name]
+
+
+def splice(tmpl, values):
+    """template bytes with the holes replaced by values (bytes natively, segments symbolically)"""
+    from pyvc.sym import mkbytes
+    base, holes = tmpl
+    parts, pos = [], 0
+    for (off, n), v in sorted(zip(holes, values), key=lambda x: x[0][0]):
+        parts.append(base[pos:off])
+        parts.append(v)
+        pos = off + n
+    parts.append(base[pos:])
+    if all(isinstance(x, bytes) for x in parts):
+        return b''.join(parts)
+    return mkbytes([x for x in parts if not (isinstance(x, bytes) and x == b'')])
+
+
+def _delegate_tmpl():
+    from tapescript import tools
+    return builder_template('delegate_key_lock',
+                            lambda pk, a: bytes(tools.make_delegate_key_lock(pk, a.hex())), (32, 1))
+
+
+def validate_templates_c14(seed, n):
+    from nacl.signing import SigningKey
+    from tapescript import tools
+    rnd = random.Random(seed)
+    bad = None
+    cnt = 0
+    t = _delegate_tmpl()
+    for _ in range(n):
+        pk = bytes(SigningKey(rnd.randbytes(32)).verify_key)
+        a = rnd.randbytes(1)
+        cnt += 1
+        if bytes(tools.make_delegate_key_lock(pk, a.hex())) != splice(t, [pk, a]) and bad is None:
+            bad = ('delegate_key_lock', pk.hex(), a.hex())
+        # certificate layout the lock relies on: delegate key (32) + begin (4) + end (4) + can (1) + sig (64)
+        begin, end = rnd.randrange(0, 2**31), rnd.randrange(0, 2**31)
+        cert = tools.make_delegate_key_cert(rnd.randbytes(32), pk, begin, end, rnd.random() < 0.5).pack()
+        cnt += 1
+        if (len(cert) != 105 or cert[:32] != pk or int.from_bytes(cert[32:36], 'big') != begin
+                or int.from_bytes(cert[36:40], 'big') != end) and bad is None:
+            bad = ('delegate_key_cert layout', cert.hex())
+    return ob('templates/C14-locks', bad is None, {'failing': repr(bad)}), cnt
+
+
+def lemma_delegate(e):
+    """make_delegate_key_lock: witness `push <sig by delegate> push <cert>`, cert = delegate key (32) +
+    begin (4) + end (4) + may-delegate (1) + signature by the root key over those 41 bytes (64)"""
+    import z3
+    from pyvc.sym import bexpr, mkbytes
+    from pyvc import models, crypto
+    ip, mk = e.ip, e.mk
+    K = mk.bytes('rootkey', 32)
+    a, a_b = _byte('allowed')
+    d = mk.bytes('delegate', 32)
+    bts = mk.bytes('begin', 4)
+    ets = mk.bytes('end', 4)
+    can = mk.bytes('can', 1)
+    csig = mk.bytes('certsig', 64)
+    w = mk.bytes('w')
+    ip.ctx.assume(z3.And(z3.Length(bexpr(w)) >= 1, z3.Length(bexpr(w)) <= 255))
+    e.t = mk.int('t')
+    models.hdict_set(ip, e.cache_vals, 'timestamp', e.t)
+    lock = splice(_delegate_tmpl(), [K, a_b])
+    cert = mkbytes([d, bts, ets, can, csig])
+    witness = render([('push', w), ('push', cert)], ip, 'wit')
+    v = e.run([witness, lock])
+    from pyvc.sym import zint
+    now = ip.ctx.ghost.get('now')
+    b_ = zint(ip.call(e.vocab.ubig, [bts], {}))
+    e_ = zint(ip.call(e.vocab.ubig, [ets], {}))
+    t = e.t
+    window = z3.And(t >= b_, t < e_, (t - now < 60) if now is not None else z3.BoolVal(True))
+    signed = crypto.ed_verify(bexpr(K), bexpr(mkbytes([d, bts, ets, can])), bexpr(csig))
+    claim = z3.And(signed, window, e.sig_valid(z3.BV2Int(a), d, w))
+    ip.ctx.oblige('delegate/sound', z3.Implies(v, claim), 'lemma')
+    ip.ctx.oblige('delegate/complete', z3.Implies(z3.And(claim, e.no_failure()), v), 'lemma')
+
+
 LEMMAS = {
     'single-sig': lemma_single_sig, 'single-sig2': lemma_single_sig2, 'scripthash': lemma_scripthash,
     'graftroot-key': lemma_graftroot_key, 'graftroot-surrogate': lemma_graftroot_surrogate,
     'taproot-key': lemma_taproot_key, 'taproot-script': lemma_taproot_script, 'merkle1': lemma_merkle1,
     'htlc-sha256': lemma_htlc_sha256, 'htlc-sha256-ts5': lemma_htlc_sha256_5, 'htlc-shake256': lemma_htlc_shake256,
-    'ptlc': lemma_ptlc,
+    'ptlc': lemma_ptlc, 'delegate': lemma_delegate,
 }
 
 
-def run_lemmas(names, prop, tier='quick'):
+def _run_one(args):
+    nme, prop = args
     from pyvc import driver, lemma
     src, reg = driver._init()
-    obs, summary, und = [], {}, []
-    for nme in names:
-        fn = LEMMAS[nme]
+    fn = LEMMAS[nme]
 
-        def build(ip, mk, fn=fn):
-            fn(Env(ip, mk, src, reg))
-        r = lemma.run_lemma(src, reg, f'{prop}/{nme}', build, opts={'max_paths': 20000})
+    def build(ip, mk):
+        fn(Env(ip, mk, src, reg))
+    return nme, lemma.run_lemma(src, reg, f'{prop}/{nme}', build, opts={'max_paths': 20000})
+
+
+def run_lemmas(names, prop, tier='quick'):
+    from multiprocessing import get_context
+    from pyvc import driver
+    driver._init()
+    if len(names) > 1:
+        with get_context('fork').Pool(min(16, len(names)), maxtasksperchild=1) as pool:
+            results = pool.map(_run_one, [(n, prop) for n in names], chunksize=1)
+    else:
+        results = [_run_one((names[0], prop))]
+    obs, summary, und = [], {}, []
+    for nme, r in results:
         if os.environ.get('LEMMA_DEBUG'):
             for st in r.get('statuses', []):
                 print('   path', st)
@@ -527,7 +654,7 @@ def run_lemmas(names, prop, tier='quick'):
         obs.extend(r['obligations'])
         if r['undecided'] or r['error']:
             und.append((f'lemma {prop}/{nme}', r['undecided'] or r['error']))
-        elif r['paths'] == 0 or not any(o['name'].endswith(('/sound', '/complete')) or '/claim' in o['name']
+        elif r['paths'] == 0 or not any(o['name'].endswith(('/sound', '/complete')) or '/starts-' in o['name']
                                         for o in r['obligations']):
             und.append((f'lemma {prop}/{nme}', 'vacuous: no path reached the claim'))
     out = {'obligations': obs, 'summary': summary}
@@ -556,6 +683,15 @@ def c05_locks(tier='quick', seed=0):
 
 def c04_locks(tier='quick', seed=0):
     return _extra('C04', ['merkle1'], tier, seed)
+
+
+def c15_locks(tier='quick', seed=0):
+    tv, cnt = validate_templates_c15(seed, 6 if tier == 'quick' else 200)
+    r = run_lemmas(['htlc-sha256', 'htlc-sha256-ts5', 'htlc-shake256', 'ptlc'], 'C15', tier)
+    r['obligations'].insert(0, tv)
+    r['bounded'] = {'what': 'builder output == byte template (translation validation of the compile step), with the '
+                            'clock pinned', 'bound': f'{cnt} builder calls'}
+    return r
 
 
 if __name__ == '__main__':
